@@ -393,3 +393,187 @@ def collections_counter():
 
 def clone(p):
     return copy.deepcopy(p)
+
+
+# ------------------------------------------------------------------ C04 corpus
+def join_shapes():
+    """Fork/join shapes for C04 (named, simplest first)."""
+    P = {}
+    C = curated()
+    for k in ('diamond', 'diamond_complete', 'join_two_starts', 'join_one',
+              'join_2of3', 'join_err_routes', 'join_then',
+              'join_onerror_handler', 'nested_join', 'join_guard_nofire',
+              'join_one_guard_nofire', 'fork3_join', 'diamond_err_handler'):
+        P[k] = C[k]
+    for j in ('all', 'one', 2):
+        for ev in ('on-success', 'on-error', 'on-complete'):
+            P['j%s_%s_3starts' % (j, ev)] = direct({
+                'a': T(**{ev: ['d']}), 'b': T(**{ev: ['d']}),
+                'c': T(**{ev: ['d']}), 'd': T(join=j)})
+        P['j%s_mixed_routes' % j] = direct({
+            'a': T(**{'on-success': ['d']}),
+            'b': T(**{'on-error': ['d']}),
+            'c': T(**{'on-complete': ['d']}), 'd': T(join=j)})
+        P['j%s_guards' % j] = direct({
+            'a': T(**{'on-success': [['d', ['true']]]}),
+            'b': T(**{'on-success': [['d', ['false']]]}),
+            'c': T(**{'on-success': ['d']}), 'd': T(join=j)})
+        P['j%s_impossible_route' % j] = direct({
+            'a': T(**{'on-error': ['x']}),
+            'x': T(**{'on-success': ['d']}),
+            'b': T(**{'on-success': ['d']}),
+            'd': T(join=j)})
+        P['j%s_handler' % j] = direct({
+            'a': T(**{'on-success': ['d']}),
+            'b': T(**{'on-success': ['d']}),
+            'd': T(join=j, **{'on-error': ['h']}), 'h': T()})
+    P['jall_chain_inbound'] = direct({
+        'a': T(**{'on-success': ['b']}), 'b': T(**{'on-success': ['d']}),
+        'c': T(**{'on-success': ['d']}), 'd': T(join='all')})
+    P['jall_successor'] = direct({
+        'a': T(**{'on-success': ['d']}), 'b': T(**{'on-success': ['d']}),
+        'd': T(join='all', **{'on-success': ['e']}), 'e': T()})
+    P['nested_inner_never_triggered'] = direct({
+        'a': T(**{'on-success': [['j1', ['false']]]}),
+        'b': T(**{'on-success': [['j1', ['false']]]}),
+        'j1': T(join='all', **{'on-success': ['j2']}),
+        'c': T(**{'on-success': ['j2']}),
+        'j2': T(join='all')})
+    P['nested_inner_triggered'] = direct({
+        'a': T(**{'on-success': ['j1']}),
+        'b': T(**{'on-success': ['j1']}),
+        'j1': T(join='all', **{'on-success': ['j2']}),
+        'c': T(**{'on-success': ['j2']}),
+        'j2': T(join='all')})
+    P['two_joins_same_inbound'] = direct({
+        'a': T(**{'on-success': ['j1', 'j2']}),
+        'b': T(**{'on-success': ['j1', 'j2']}),
+        'j1': T(join='all'), 'j2': T(join='all')})
+    P['join_defaults_on_error'] = direct(
+        {'a': T(**{'on-success': ['d']}), 'b': T(**{'on-success': ['d']}),
+         'd': T(join='all'), 'h': T(**{'on-error': ['noop']})},
+        **{'task-defaults': {'on-error': ['h']}})
+    return P
+
+
+def reverse_shapes(max_n=3):
+    """All requires-DAGs over t1..tn (each task requires a subset of the
+    earlier ones) x every target."""
+    out = {}
+    for n in range(1, max_n + 1):
+        names = ['t%d' % i for i in range(1, n + 1)]
+        opts = []
+        for i, tn in enumerate(names):
+            earlier = names[:i]
+            subs = [()]
+            for k in range(1, len(earlier) + 1):
+                subs.extend(itertools.combinations(earlier, k))
+            opts.append(subs)
+        for combo in itertools.product(*opts):
+            tasks = {}
+            for tn, reqs in zip(names, combo):
+                t = {}
+                if reqs:
+                    t['requires'] = list(reqs)
+                tasks[tn] = t
+            tag = '_'.join('%s<%s' % (tn[1:], ''.join(r[1:] for r in reqs))
+                           for tn, reqs in zip(names, combo))
+            for target in names:
+                out['rev%d[%s]->%s' % (n, tag, target)] = (
+                    {'type': 'reverse', 'tasks': tasks}, target)
+    return out
+
+
+# ------------------------------------------------------------------ C05 corpus
+def dataflow_shapes():
+    P = {}
+    out = {'v': ['var', 'v'], 'w': ['var', 'w']}
+    deep1 = {'a': {'b': {'c': 1, 'd': 1}, 'e': 1}}
+    deep2 = {'a': {'b': {'c': 2, 'd': 2}, 'e': 2}}
+    for fresh in ('b', 'c'):
+        other = 'c' if fresh == 'b' else 'b'
+        P['fresh_%s_vs_inherited' % fresh] = direct({
+            'a': T(publish={'v': ['lit', 1]}, **{'on-success': ['b', 'c']}),
+            fresh: T(publish={'v': ['lit', 2]}, **{'on-success': ['d']}),
+            other: T(**{'on-success': ['d']}),
+            'd': T(join='all', publish={'w': ['var', 'v']})},
+            input={'v': 0, 'w': 0}, output=out)
+        P['fresh_%s_vs_input' % fresh] = direct({
+            'a': T(**{'on-success': ['b', 'c']}),
+            fresh: T(publish={'v': ['lit', 2]}, **{'on-success': ['d']}),
+            other: T(**{'on-success': ['d']}),
+            'd': T(join='all', publish={'w': ['var', 'v']})},
+            input={'v': 0, 'w': 0}, output=out)
+        P['deep_fresh_%s' % fresh] = direct({
+            'a': T(publish={'v': ['lit', deep1]},
+                   **{'on-success': ['b', 'c']}),
+            fresh: T(publish={'v': ['lit', deep2]}, **{'on-success': ['d']}),
+            other: T(**{'on-success': ['d']}),
+            'd': T(join='all', publish={'w': ['var', 'v']})},
+            input={'w': 0}, output=out)
+        P['twice_fresh_%s' % fresh] = direct({
+            'a': T(publish={'v': ['lit', 1]}, **{'on-success': ['b', 'c']}),
+            fresh: T(publish={'v': ['lit', 2]}, **{'on-success': ['f']}),
+            'f': T(publish={'v': ['inc', 'v']}, **{'on-success': ['d']}),
+            other: T(**{'on-success': ['d']}),
+            'd': T(join='all', publish={'w': ['var', 'v']})},
+            input={'v': 0, 'w': 0}, output=out)
+        P['on_error_fresh_%s' % fresh] = direct({
+            'a': T(publish={'v': ['lit', 1]}, **{'on-success': ['b', 'c']}),
+            fresh: T(**{'publish-on-error': {'v': ['lit', 3]},
+                        'publish': {'v': ['lit', 2]},
+                        'on-complete': ['d']}),
+            other: T(**{'on-complete': ['d']}),
+            'd': T(join='all', publish={'w': ['var', 'v']})},
+            input={'v': 0, 'w': 0}, output=out)
+        P['end_tasks_%s' % fresh] = direct({
+            'a': T(publish={'v': ['lit', 1]}, **{'on-success': ['b', 'c']}),
+            fresh: T(publish={'v': ['lit', 2]}),
+            other: T(publish={'w': ['var', 'v']})},
+            input={'v': 0, 'w': 0}, output=out)
+        P['join_one_%s' % fresh] = direct({
+            'a': T(publish={'v': ['lit', 1]}, **{'on-success': [fresh]}),
+            fresh: T(publish={'v': ['lit', 2]}, **{'on-success': ['d']}),
+            'd': T(join='all', publish={'w': ['var', 'v']}),
+            other: T(**{'on-success': ['d']})},
+            input={'v': 0, 'w': 0}, output=out)
+    P['chain_inc'] = direct({
+        'a': T(publish={'v': ['lit', 1]}, **{'on-success': ['b']}),
+        'b': T(publish={'v': ['inc', 'v']}, **{'on-success': ['c']}),
+        'c': T(publish={'w': ['var', 'v']})},
+        input={'v': 0, 'w': 0}, output=out)
+    P['disjoint_vars'] = direct({
+        'a': T(**{'on-success': ['b', 'c']}),
+        'b': T(publish={'x': ['lit', 1]}, **{'on-success': ['d']}),
+        'c': T(publish={'y': ['lit', 2]}, **{'on-success': ['d']}),
+        'd': T(join='all', publish={'z': ['var', 'x'], 'w': ['var', 'y']})},
+        output={'x': ['var', 'x'], 'y': ['var', 'y'], 'z': ['var', 'z']})
+    P['nested_disjoint_leaves'] = direct({
+        'a': T(publish={'v': ['lit', {'p': {'x': 0, 'y': 0}}]},
+               **{'on-success': ['b', 'c']}),
+        'b': T(publish={'v': ['lit', {'p': {'x': 1, 'y': 0}}]},
+               **{'on-success': ['d']}),
+        'c': T(**{'on-success': ['d']}),
+        'd': T(join='all', publish={'w': ['var', 'v']})},
+        output=out)
+    P['result_publish'] = direct({
+        'a': T(publish={'v': ['result']}, **{'on-success': ['b', 'c']}),
+        'b': T(publish={'v': ['result']}, **{'on-success': ['d']}),
+        'c': T(**{'on-success': ['d']}),
+        'd': T(join='all', publish={'w': ['var', 'v']})},
+        input={'w': 0}, output=out)
+    P['three_branches'] = direct({
+        'a': T(publish={'v': ['lit', 1]}, **{'on-success': ['b', 'c', 'e']}),
+        'b': T(**{'on-success': ['d']}),
+        'c': T(publish={'v': ['lit', 2]}, **{'on-success': ['d']}),
+        'e': T(**{'on-success': ['d']}),
+        'd': T(join='all', publish={'w': ['var', 'v']})},
+        input={'v': 0, 'w': 0}, output=out)
+    P['guard_on_published'] = direct({
+        'a': T(publish={'v': ['lit', 1]}, **{'on-success': ['b']}),
+        'b': T(publish={'v': ['lit', 2]},
+               **{'on-success': [['c', ['eq', 'v', 2]],
+                                 ['d', ['eq', 'v', 1]]]}),
+        'c': T(publish={'w': ['var', 'v']}), 'd': T()},
+        input={'v': 0, 'w': 0}, output=out)
+    return P
